@@ -548,10 +548,14 @@ func TestVerifC11Run(t *testing.T) {
 		if ap.Algo == "pedersen" {
 			other = "frost"
 		}
-		// ... plus one plain ceremony of the other algorithm with a LOW threshold (below ceil(2n/3)) and lock verification
-		// switched off (--no-verify), rotating by seed, so that both algorithms are run through dkg.Run every time
+		// ... plus one plain FROST ceremony with a LOW threshold (below ceil(2n/3)) and lock verification switched off
+		// (--no-verify), the (n, t) rotating by seed; and, when the append scenario is not pedersen, one such pedersen
+		// ceremony, so that both algorithms are run through dkg.Run every time
 		low := [][2]int{{4, 2}, {5, 3}, {5, 2}}[(seed+1+3000)%3]
-		todo = []c11rCeremony{ap, {Algo: other, Flow: "run", N: low[0], T: low[1], Vals: 1, NoVerify: true}}
+		todo = []c11rCeremony{ap, {Algo: "frost", Flow: "run", N: low[0], T: low[1], Vals: 1, NoVerify: true}}
+		if other == "pedersen" {
+			todo = append(todo, c11rCeremony{Algo: "pedersen", Flow: "run", N: 4, T: 2, Vals: 1, NoVerify: true})
+		}
 		if os.Getenv("VERIF_C11_LOSSY") != "" || seed%3 == 0 {
 			// corpus: the minimised input of reading note N-C11-QUAL through the full ceremony (rotates in every third seed at quick)
 			todo = append(todo, c11rCeremony{Algo: "pedersen", Flow: "lossy", N: 4, T: 3, Vals: 1, Drop: &c11rDrop{Kind: "deal", From: 2, To: 0}})
